@@ -592,6 +592,22 @@ func (p *c08) pokeUnprepared(o *Outcome, ev *c08Eval) {
 // prepareAndPoke prepares text and exercises every entry point on it.
 func (p *c08) prepareAndPoke(o *Outcome, st *Stats, text string, opt bool, sample map[string]interface{}) {
 	ev := p.newEval(text, "")
+	if len(text)%3 == 0 {
+		// a host that forgets Prepare altogether gets errors, not panics
+		p.pokeUnprepared(o, ev)
+		func() {
+			defer func() {
+				if r := recover(); r != nil {
+					o.violate("C08/escaped-panic", "GetVariable before Prepare", "GetVariable on an evaluator that was never prepared panicked: %v", r)
+				}
+			}()
+			ev.e.GetVariable("x")
+			ev.e.SetVariable("x", &object.Integer{Value: 1})
+		}()
+		if len(o.V) > 0 {
+			return
+		}
+	}
 	err, esc := doPrepare(ev.e, opt)
 	if p.check(o, esc, fmt.Sprintf("Prepare of %q", clip(text, 80))) {
 		return
